@@ -25,7 +25,7 @@ func TestMain(m *testing.M) {
 		panic(err)
 	}
 	tmpRoot = d
-	defer os.RemoveAll(d)
+	h.AtExit(func() { os.RemoveAll(d) })
 	h.Main(m, "C15", replay)
 }
 
@@ -39,6 +39,7 @@ type graphCase struct {
 	Files  bool       `json:"files,omitempty"`  // real directory tree + LoadFile instead of the in-memory finder
 	Expect string     `json:"expect,omitempty"` // for probes: "ok:<trace suffix>" | "error"
 	Bare   []int      `json:"bare,omitempty"`   // modules (0 = main) whose file holds 导入 lines only
+	Extra  string     `json:"extra,omitempty"`  // one more import line of main (after the others)
 }
 
 func (c *graphCase) bare(i int) bool {
@@ -79,6 +80,9 @@ func moduleSource(c *graphCase, i int) string {
 			b.WriteString("之" + c.Select[i][k])
 		}
 		b.WriteString("\n")
+	}
+	if i == 0 && c.Extra != "" {
+		b.WriteString(c.Extra + "\n")
 	}
 	if c.bare(i) {
 		// nothing but imports (a comment and a blank line are no statements)
@@ -266,6 +270,13 @@ func checkGraph(c *graphCase) []h.Failure {
 		c2 := *c
 		c2.Expect = "ok:" + strings.TrimPrefix(c.Expect, "error-or-ok:")
 		c = &c2
+	}
+	if c.Expect == "import-error" {
+		// the program must be rejected while its imports are loaded (no body ran twice: above)
+		if o.Kind != h.KError {
+			return []h.Failure{{Sig: "modules/import-accepted", Msg: fmt.Sprintf("%s\nthe import %s must be rejected; got %s\ntrace: %v", desc, c.Extra, o.Short(), o.Trace)}}
+		}
+		return nil
 	}
 	if c.Expect == "error" {
 		if o.Kind != h.KError {
@@ -509,7 +520,21 @@ func TestRandomGraphs(t *testing.T) {
 					dup = true
 				}
 			}
-			switch rapid.IntRange(0, 16).Draw(t, "probe") {
+			switch rapid.IntRange(0, 18).Draw(t, "probe") {
+			case 17, 18: // a second spelling of a nested module's path is not a second name of it
+				for _, j := range c.Edges[0] {
+					if strings.Contains(c.Names[j], "-") {
+						alt := strings.Replace(c.Names[j], "-", "/", 1)
+						if rapid.Bool().Draw(t, "dotdot") {
+							parts := strings.Split(c.Names[j], "-")
+							alt = parts[0] + "-..-" + c.Names[j]
+						}
+						c.Extra = "导入“" + alt + "”"
+						c.Expect = "import-error"
+						labels = append(labels, "probe:second-spelling-of-a-module-path")
+						break
+					}
+				}
 			case 15, 16: // an imported method reached through another name (a variable, an input of a
 				// method of main) still behaves as inside its own module: it finds its sibling
 				// method and its module's type although main imported neither
